@@ -3,6 +3,8 @@
 //! note: what the router believes about one candidate hop: CandidateRouteHop::{fees, htlc_minimum_msat, cltv_expiry_delta, effective_capacity} return exactly the policy the hop's own source advertises (gossip direction, route hint, blinded pay-info) and nothing for the payer's own first hop
 //! trusted: R5: CandidateRouteHop and its five candidate structs are skeletons with the fields these four accessors read (the real ones hold references into the graph, the hints and the first-hop list; references are owned values here); DirectedChannelInfo::direction() / effective_capacity() external_body accessors (effective_capacity is proved in unit u16d); RoutingFees, EffectiveCapacity extracted
 //! trusted: assume_specification for core::cmp::max / core::cmp::min (std definitions): present in every unit so that a change that introduces them is verified instead of being rejected by the tool
+//! trusted: R15 (deep slice): add_random_cltv_offset: the statements that cap the shadow offset (the function-local constant, the remaining-budget computation, the two `min`s) verbatim as a function of the offset found by the random walk, the payment parameters and the path's total delta (PathStub::total_cltv_expiry_delta is its total); the random walk and the application to the last hop / blinded tail are dropped and not claimed
+//! assume: the path handed to add_random_cltv_offset is within the caller's max_total_cltv_expiry_delta (established by get_route; the subtraction underflows otherwise)
 use vstd::prelude::*;
 verus! {
 use vstd::std_specs::cmp::*;
@@ -93,6 +95,37 @@ impl CandidateRouteHop {
     liquidity_msat: hop.details.next_outbound_htlc_limit_msat,
 //@with
     liquidity_msat: hop.details.next_outbound_htlc_minimum_msat,
+//@end
+}
+
+// ---- add_random_cltv_offset: the privacy offset never takes a path over the caller's CLTV limit ----------------------
+pub mod shadow_offset {
+use vstd::prelude::*;
+use vstd::std_specs::cmp::*;
+use core::cmp;
+//@const lightning/src/routing/router.rs MEDIAN_HOP_CLTV_EXPIRY_DELTA
+pub struct PaymentParameters { pub max_total_cltv_expiry_delta: u32 }
+pub struct PathStub { pub total: u32 }
+impl PathStub { #[verifier::external_body] pub fn total_cltv_expiry_delta(&self) -> (r: u32) ensures r == self.total { unimplemented!() } }
+//@extract lightning/src/routing/router.rs :: fn add_random_cltv_offset
+//@slice R15
+    const MAX_SHADOW_CLTV_EXPIRY_DELTA_OFFSET: u32 = $m:seq; $body:straight if let Some(tail) = path.blinded_tail.as_mut() {
+//@with
+    fn limited_shadow_offset(shadow_in: u32, payment_params: &PaymentParameters, path: &PathStub) -> u32 {
+        const MAX_SHADOW_CLTV_EXPIRY_DELTA_OFFSET: u32 = $m;
+        let mut shadow_ctlv_expiry_delta_offset = shadow_in;
+        $body
+        shadow_ctlv_expiry_delta_offset
+    }
+//@ret r
+//@requires
+    path.total <= payment_params.max_total_cltv_expiry_delta,
+//@ensures P C16 the-shadow-cltv-offset-added-for-privacy-never-takes-a-path-over-the-callers-total-cltv-limit
+    path.total + r <= payment_params.max_total_cltv_expiry_delta, r <= shadow_in, r <= 3 * 144,
+//@mutant offset_limited_by_the_whole_budget_instead_of_what_is_left
+    payment_params.max_total_cltv_expiry_delta - path.total_cltv_expiry_delta();
+//@with
+    payment_params.max_total_cltv_expiry_delta;
 //@end
 }
 }
